@@ -127,3 +127,28 @@ PROPS["C04"] = dict(
 DESCR += [(r"c04_._read_line_strict", "read_line_strict on every byte string of length n: line ends at first CR LF, bounded buffering, exact hand-off position"),
           (r"c04_._read_line_n", "read_line on every byte string of length n: line ends at first LF, bounded buffering, exact hand-off position"),
           (r"c04_._trim", "trim_byte*/replace_byte on every byte string of length n against a direct specification")]
+
+PROPS["C07"] = dict(
+    filters={"quick": ["c07_q", "c07_qtwin"], "thorough": ["c07_"]},
+    timeout_s={"quick": 600, "thorough": 2400},
+    mem_gb=26, jobs={"quick": 8, "thorough": 8},
+    kernel=["body::ChunkedWriter::{write,close,flush}", "PreparedRequest::{write_request,write_headers}", "RequestBuilder::try_prepare", "Body for Empty/Text/Bytes", "header_insert/header_insert_if_missing"],
+    bounds="user-body write sequences of <=4 calls with lengths from {0,1,2,5,16,17} (symbolic bytes), directly and through a BufWriter of capacity 2; "
+           "try_prepare/write_request on factory URLs for body kinds Empty/Text/Bytes/custom-chunked with symbolic body bytes of enumerated length",
+    outside="param(s), basic_auth/bearer_auth, JSON/form serialisation, file bodies (url::form_urlencoded, base64, serde, file I/O: external crates / FFI); symbolic header names",
+    stubs=["core::slice::memchr::memchr -> naive", "core::str::from_utf8 -> byte-wise validator", "io::Error::is_interrupted -> false"],
+    assumptions=[],
+)
+DESCR += [(r"c07_._chunkw", "a user body issues the write calls named in the harness (symbolic bytes) on ChunkedWriter; the emitted bytes are decoded by a reference chunk decoder"),
+          (r"c07_._prepare", "try_prepare + write_request for one body kind: framing headers vs octets actually written; request layout decoded back")]
+
+PROPS["C10"] = dict(
+    filters={"quick": ["c10_q", "c10_qtwin"], "thorough": ["c10_"]},
+    timeout_s={"quick": 600, "thorough": 2400},
+    kernel=["Body::{kind,write} for Empty/Text/Bytes/Multipart", "PreparedRequest::send (redirect loop: proxy re-evaluation, set_host per hop)"],
+    bounds="bodies of 0..9 symbolic bytes written twice (what send() does on a 307/308 hop); hop loop as in C09",
+    outside="file bodies (seek/FFI), JSON bodies (serde)",
+    stubs=["core::slice::memchr::memchr -> naive", "core::str::from_utf8 -> byte-wise validator", "io::Error::is_interrupted -> false"],
+    assumptions=[],
+)
+DESCR += [(r"c10_._replay", "kind()+write() twice on the same body object: identical octets and kind on both hops")]
